@@ -1,1 +1,18 @@
-import RosedVerif.Model.Ops
+/-
+C16 — Tables are rectangular with aligned columns.
+(first instalment; rectangularity at cluster level follows in CompositeLemmas)
+-/
+import RosedVerif.Model.InstAFacts
+namespace RosedVerif.Props
+open RosedVerif
+
+/-- empty data, or only empty rows, produce no table lines -/
+theorem C16_empty {α : Type} [DecidableEq α] (cx : Ctx α) (w : Int) (h b : Bool) (cs : List α) :
+    makeTable cx [] w h b cs = [] ∧ makeTable cx [[], []] w h b cs = [] := by
+  constructor <;> simp [makeTable]
+
+/-- InsertTable is total on arbitrary code-point data -/
+theorem C16_total (ed : Editor Int) (p : Int) (d : List (List (List Int))) (w : Int) (o : Options Int) :
+    ∃ r, ed.insertTableOpts cxA p d w o = .ok r := insertTableOpts_total cxA_Sane ed p d w o
+
+end RosedVerif.Props
